@@ -20,6 +20,8 @@ func stackAlphabet(cfg Cfg, withEvict bool) []wire.Op {
 		p(wire.Op{Kind: "set", Key: "a", Val: "x", Flags: 0xfffffffe, TTL: 0})
 		p(wire.Op{Kind: "set", Key: "a", Val: "yz", Flags: 0, TTL: 3600})
 		p(wire.Op{Kind: "set", Key: "a", Val: "", Flags: 7, TTL: 0})
+		// a value whose bytes look like protocol text (values are length-delimited in both protocols)
+		p(wire.Op{Kind: "set", Key: "b", Val: "\r\nEND\r\nVALUE b 0 1\r\n", Flags: 0x80000000, TTL: 0})
 		p(wire.Op{Kind: "add", Key: "a", Val: "p", Flags: 1, TTL: 0})
 		p(wire.Op{Kind: "replace", Key: "a", Val: "q", Flags: 2, TTL: 3600})
 		p(wire.Op{Kind: "append", Key: "a", Val: "s"})
@@ -47,6 +49,9 @@ func stackAlphabet(cfg Cfg, withEvict bool) []wire.Op {
 		// a multi-key get is one request: text "get a b"; binary GETQ* closed by GET or NOOP
 		p(wire.Op{Kind: "mget", Keys: []string{"a", "b"}, Quiet: []bool{bin, false}})
 		p(wire.Op{Kind: "mget", Keys: []string{"a", "a"}, Quiet: []bool{bin, false}})
+		// three keys, one of them never stored: every mix of L1 hit / L2 hit / miss in one request
+		p(wire.Op{Kind: "mget", Keys: []string{"a", "nokey", "b"}, Quiet: []bool{bin, bin, false}})
+		p(wire.Op{Kind: "mget", Keys: []string{"b", "a", "nokey"}, Quiet: []bool{bin, bin, false}})
 		{
 			// one request line longer than the parser's 4 KiB buffer: 17 maximal keys that miss, then a
 			var ks []string
@@ -65,6 +70,8 @@ func stackAlphabet(cfg Cfg, withEvict bool) []wire.Op {
 	if withEvict {
 		out = append(out, wire.Op{Kind: "evict", Key: "a"}, wire.Op{Kind: "evict", Key: "b"})
 	}
+	// the connections stay idle for two hours (entries with the one-hour TTL are gone afterwards)
+	out = append(out, wire.Op{Kind: "advance", Sec: 7200})
 	return out
 }
 
@@ -153,13 +160,19 @@ func runC01(c *rt.Ctx) {
 		if !c.Mine(1000 + i) {
 			continue
 		}
-		for n := 0; n <= maxSweep; n += step {
+		// beyond the dense range: lengths around the buffer sizes of the stack (bufio 4096, the pool's
+		// 64 KiB batch buffer, 16-bit boundaries)
+		extra := []int{4095, 4096, 4097, 8191, 8193, 65535, 65536, 65537, 100000}
+		for n := 0; n <= maxSweep+len(extra)*step; n += step {
 			if c.Expired() {
 				return
 			}
 			ln := n
 			if !c.Thorough() && n > 0 {
 				ln = n - (i % step) // different residues per configuration
+			}
+			if n > maxSweep {
+				ln = extra[(n-maxSweep-1)/step]
 			}
 			val := string(wire.GenValue(ln, ln+i))
 			if cfg.Proto == "text" {
